@@ -237,57 +237,62 @@ static uint8_t *pl(int arena, const cop *o, int which, size_t n)
     return (o->flags & F_FRONT) ? vh_gfront(arena, n, mis) : vh_gback(arena, n, mis);
 }
 
-void phist_run(const phist *h, ctrans *t, const char *prefix)
+void phist_exec(const phist *h, int i, vh_obj *ob, ctrans *t, const char *prefix)
 {
     const vh_cipher *c = h->c;
-    vh_handle H;
-    int i, live = 0;
     char key[256];
-    memset(&H, 0, sizeof(H));
-    t->out_n = 0; t->backend = -1; t->canary_damage = 0; t->canary_where = 0;
-    for (i = 0; i < h->n; ++i) {
-        const cop *o = &h->ops[i];
-        vh_handle *obj = (o->flags & F_NULL_OBJ) ? NULL : &H;
-        int ret = -1, ua = 0, ub = 0, ut = 0;
-        long where = 0;
-        snprintf(key, sizeof(key), "%s:%s", prefix, o->cls ? o->cls : p_kind_names[o->kind]);
-        vh_set_crash_key(key);
-        t->r[i].ooff = (uint32_t)t->out_n; t->r[i].olen = 0;
-        switch (o->kind) {
-        case P_INIT:
-            vh_call_begin("parallel_ecb_init"); ret = c->par_init(obj); vh_call_end();
-            if (obj && ret) { live = 1; if (t->backend < 0) t->backend = c->par_backend(&H); }
-            break;
-        case P_CLEANUP:
-            vh_call_begin("parallel_ecb_cleanup"); c->par_cleanup(obj); vh_call_end();
-            if (obj) live = 0;
-            break;
-        case P_SWAP:
-            vh_call_begin("parallel_ecb_swap_modes"); c->par_swap(obj); vh_call_end();
-            break;
-        case P_SET_KEY: {
-            uint8_t *a = NULL;
-            if (!(o->flags & F_NULL_PTR)) { a = pl(0, o, 0, o->dlen); ua = 1; memcpy(a, h->pool + o->doff, o->dlen); }
-            vh_call_begin("parallel_ecb_set_key"); ret = c->par_set_key(obj, a, o->len, o->rounds, (int)h->mode[i]); vh_call_end();
-            break; }
-        case P_ENCRYPT: case P_DECRYPT: {
-            uint8_t *in = pl(1, o, 0, o->len), *out, *tw = NULL;
-            ua = 2;
-            memcpy(in, h->pool + o->doff, o->len);
-            if (o->flags & F_INPLACE) out = in; else { out = pl(2, o, 1, o->len); ub = 1; memset(out, 0xEE, o->len); }
-            if (c->id == CIPH_MANTIS) { tw = pl(3, o, 0, o->len); ut = 1; memcpy(tw, h->pool + o->doff + o->len, o->len); }
-            vh_call_begin(o->kind == P_DECRYPT ? "parallel_ecb_decrypt" : "parallel_ecb_encrypt");
-            ret = (o->kind == P_DECRYPT ? c->par_decrypt : c->par_encrypt)(out, in, tw, o->len, obj);
-            vh_call_end();
-            if (ret && t->out_n + o->len <= H_OUT) { memcpy(t->out + t->out_n, out, o->len); t->r[i].olen = o->len; t->out_n += o->len; }
-            break; }
-        }
-        t->r[i].ret = ret;
-        if (ua && vh_gcheck(ua == 2 ? 1 : 0, &where) && !t->canary_damage) { t->canary_damage = i + 1; t->canary_where = where; }
-        if (ub && vh_gcheck(2, &where) && !t->canary_damage) { t->canary_damage = i + 1; t->canary_where = where; }
-        if (ut && vh_gcheck(3, &where) && !t->canary_damage) { t->canary_damage = i + 1; t->canary_where = where; }
+    const cop *o = &h->ops[i];
+    vh_handle *obj = (o->flags & F_NULL_OBJ) ? NULL : &ob->H;
+    int ret = -1, ua = 0, ub = 0, ut = 0;
+    long where = 0;
+    snprintf(key, sizeof(key), "%s:%s", prefix, o->cls ? o->cls : p_kind_names[o->kind]);
+    vh_set_crash_key(key);
+    t->r[i].ooff = (uint32_t)t->out_n; t->r[i].olen = 0;
+    if (vh_pre_call_hook) vh_pre_call_hook(ob, o->kind == P_CLEANUP && obj, i);
+    switch (o->kind) {
+    case P_INIT:
+        vh_call_begin("parallel_ecb_init"); ret = c->par_init(obj); vh_call_end();
+        if (obj && ret) { ob->live = 1; if (t->backend < 0) t->backend = c->par_backend(&ob->H); }
+        break;
+    case P_CLEANUP:
+        vh_call_begin("parallel_ecb_cleanup"); c->par_cleanup(obj); vh_call_end();
+        if (obj) ob->live = 0;
+        break;
+    case P_SWAP:
+        vh_call_begin("parallel_ecb_swap_modes"); c->par_swap(obj); vh_call_end();
+        break;
+    case P_SET_KEY: {
+        uint8_t *a = NULL;
+        if (!(o->flags & F_NULL_PTR)) { a = pl(0, o, 0, o->dlen); ua = 1; memcpy(a, h->pool + o->doff, o->dlen); }
+        vh_call_begin("parallel_ecb_set_key"); ret = c->par_set_key(obj, a, o->len, o->rounds, (int)h->mode[i]); vh_call_end();
+        break; }
+    case P_ENCRYPT: case P_DECRYPT: {
+        uint8_t *in = pl(1, o, 0, o->len), *out, *tw = NULL;
+        ua = 2;
+        memcpy(in, h->pool + o->doff, o->len);
+        if (o->flags & F_INPLACE) out = in; else { out = pl(2, o, 1, o->len); ub = 1; memset(out, 0xEE, o->len); }
+        if (c->id == CIPH_MANTIS) { tw = pl(3, o, 0, o->len); ut = 1; memcpy(tw, h->pool + o->doff + o->len, o->len); }
+        vh_call_begin(o->kind == P_DECRYPT ? "parallel_ecb_decrypt" : "parallel_ecb_encrypt");
+        ret = (o->kind == P_DECRYPT ? c->par_decrypt : c->par_encrypt)(out, in, tw, o->len, obj);
+        vh_call_end();
+        if (ret && t->out_n + o->len <= H_OUT) { memcpy(t->out + t->out_n, out, o->len); t->r[i].olen = o->len; t->out_n += o->len; }
+        break; }
     }
-    if (live) { vh_set_crash_key(prefix); vh_call_begin("parallel_ecb_cleanup"); c->par_cleanup(&H); vh_call_end(); }
+    if (vh_post_call_hook) vh_post_call_hook(ob, i);
+    t->r[i].ret = ret;
+    if (ua && vh_gcheck(ua == 2 ? 1 : 0, &where) && !t->canary_damage) { t->canary_damage = i + 1; t->canary_where = where; }
+    if (ub && vh_gcheck(2, &where) && !t->canary_damage) { t->canary_damage = i + 1; t->canary_where = where; }
+    if (ut && vh_gcheck(3, &where) && !t->canary_damage) { t->canary_damage = i + 1; t->canary_where = where; }
+}
+
+void phist_run(const phist *h, ctrans *t, const char *prefix)
+{
+    vh_obj ob;
+    int i;
+    memset(&ob, 0, sizeof(ob));
+    ctrans_reset(t);
+    for (i = 0; i < h->n; ++i) phist_exec(h, i, &ob, t, prefix);
+    if (ob.live) { vh_set_crash_key(prefix); vh_call_begin("parallel_ecb_cleanup"); h->c->par_cleanup(&ob.H); vh_call_end(); }
 }
 
 void phist_json(const phist *h, vh_sb *s)
